@@ -1980,6 +1980,15 @@ func (g *Gen) call0(c *ssa.CallCommon, res ssa.Value, st *State, pos token.Pos) 
 		g.note("spec used: sync/atomic.Add*")
 		return
 	}
+	if (name == "sync/atomic.StoreInt64" || name == "sync/atomic.StoreInt32") && g.all[name] == nil {
+		// sequential reading of an atomic store: a write to the cell (so it counts for the function's frame)
+		a := g.resolveAddr(args[0], st)
+		if a.kind != "unknown" {
+			w.storeAddr(a, g.val(args[1], st), st)
+			g.note("spec used: sync/atomic.Store* writes the cell")
+			return
+		}
+	}
 	if (name == "sync/atomic.LoadInt64" || name == "sync/atomic.LoadInt32") && g.all[name] == nil {
 		// sequential reading of an atomic load: the value of the cell (no contract given for it in the unit)
 		a := g.resolveAddr(args[0], st)
